@@ -108,12 +108,23 @@ MIXED = {
     "DATE": {"mixed": ["date", "pandas", "numpy", "datetime", "numpy_h", "numpy_s"],
              "mixed_p": ["pandas", "date", "numpy_s", "datetime", "numpy", "numpy_h"]},
 }
-# Arrow column types a temporal column can arrive through (DataFrame.from_arrow); date64 is typed TIMESTAMP by orso
+# Arrow column types a column can arrive through (DataFrame.from_arrow); date64 is typed TIMESTAMP by orso; an int64
+# column with nulls arrives as floats (through pandas), which is why INTEGER cells stay below 2**53 here
 ARROW = {
+    "INTEGER": ["int64", "int32"],
+    "DOUBLE": ["double"],
+    "VARCHAR": ["string", "large_string"],
+    "BOOLEAN": ["bool"],
     "DATE": ["date32"],
     "TIMESTAMP": ["date64", "timestamp[s]", "timestamp[ms]", "timestamp[us]", "timestamp[ns]", "timestamp[s,UTC]",
                   "timestamp[us,UTC]", "timestamp[ms,+05:30]", "timestamp[ns,UTC]"],
 }
+
+
+# how the frame is bound to its column names: absent = a RelationSchema of FlatColumns (typed, or untyped = no type);
+# "names" = DataFrame(rows=..., schema=[names]) and "dicts" = DataFrame([{name: value}, ...]): the schema is a plain list
+# of names, every column is of the untyped kind, and TableProfile.from_dataframe makes its own FlatColumns per morsel
+SCHEMAS = ("names", "dicts")
 
 
 def ts_parts(v):
@@ -308,7 +319,7 @@ def valid_case(c):
                 if f not in FORMS.get(k, []):
                     return False
         if "arrow" in c:
-            # the frame arrives through DataFrame.from_arrow: temporal columns only, one Arrow type per column
+            # the frame arrives through DataFrame.from_arrow: one Arrow type per column
             if not isinstance(c["arrow"], list) or len(c["arrow"]) != len(kinds) or "appends" in c or "other" in c:
                 return False
             for j, (k, t) in enumerate(zip(kinds, c["arrow"])):
@@ -318,6 +329,9 @@ def valid_case(c):
                     return False
         if "lazy" in c and not isinstance(c["lazy"], bool):
             return False
+        if "schema" in c:
+            if c["schema"] not in SCHEMAS or any(k != "UNTYPED" for k in kinds) or "cells" in c or "arrow" in c:
+                return False
         if "entry" in c and (c["entry"] not in ENTRIES or "appends" in c):
             return False
         if "appends" in c or "other" in c:
@@ -341,7 +355,8 @@ def valid_case(c):
         n = c["gen"]["n"] if "gen" in c else len(rows)
         for k in c.get("cuts", []):
             # 0 and n are ways of cutting too: one batch has no rows (not through Arrow: a table without rows)
-            lo, hi = (1, n - 1) if c.get("arrow") else (0, n)
+            # (nor for a dictionary-built frame: DataFrame([]) has no first dictionary to take the names from)
+            lo, hi = (1, n - 1) if c.get("arrow") or c.get("schema") == "dicts" else (0, n)
             if not isinstance(k, int) or isinstance(k, bool) or not (lo <= k <= hi):
                 return False
         return True
@@ -364,6 +379,14 @@ def arrow_holds(t, v):
     """Can a column of Arrow type t hold JSON cell v exactly enough (same whole second)?"""
     if v is None or t == "date32":
         return True
+    if t in ("int64", "int32"):
+        return isinstance(v, int) and not isinstance(v, bool) and abs(v) < (2**31 if t == "int32" else TWO53)
+    if t == "double":
+        return isinstance(v, float)
+    if t in ("string", "large_string"):
+        return isinstance(v, str)
+    if t == "bool":
+        return isinstance(v, bool)
     sec, us = ts_parts(v)
     if t == "date64":
         return sec % 86400 == 0 and us == 0
@@ -380,6 +403,10 @@ def _arrow_array(t, col):
 
     if t == "date32":
         return pyarrow.array(col, type=pyarrow.int32()).cast(pyarrow.date32())
+    plain = {"int64": pyarrow.int64, "int32": pyarrow.int32, "double": pyarrow.float64, "string": pyarrow.string,
+             "large_string": pyarrow.large_string, "bool": pyarrow.bool_}
+    if t in plain:
+        return pyarrow.array(col, type=plain[t]())
     parts = [None if v is None else ts_parts(v) for v in col]
     if t == "date64":
         return pyarrow.array([None if q is None else q[0] * 1000 for q in parts], type=pyarrow.int64()).cast(pyarrow.date64())
@@ -396,7 +423,7 @@ def _objects(kinds, rows, cells=None):
     return [tuple(pyvalue(k, v, f, i) for k, v, f in zip(kinds, r, cells)) for i, r in enumerate(rows)]
 
 
-def _frame(kinds, rows, cells=None, lazy=False, arrow=None):
+def _frame(kinds, rows, cells=None, lazy=False, arrow=None, schema=None):
     from orso import DataFrame
     from orso.schema import FlatColumn, RelationSchema
     from orso.types import OrsoTypes
@@ -407,6 +434,13 @@ def _frame(kinds, rows, cells=None, lazy=False, arrow=None):
         # built from integers in the column's own unit (no calendar on the way in); cells arrive as orso makes them
         table = pyarrow.table({"c%d" % j: _arrow_array(t, [r[j] for r in rows]) for j, t in enumerate(arrow)})
         return DataFrame.from_arrow(table)
+    if schema == "names":  # the schema is a plain list of names
+        data = _objects(kinds, rows, cells)
+        return DataFrame(rows=(r for r in data) if lazy else data, schema=["c%d" % j for j in range(len(kinds))])
+    if schema == "dicts":  # built from dictionaries; a key left out of a later dictionary is a null
+        data = _objects(kinds, rows, cells)
+        dicts = [{"c%d" % j: v for j, v in enumerate(r) if i == 0 or i % 2 == 0 or v is not None} for i, r in enumerate(data)]
+        return DataFrame((d for d in dicts) if lazy else dicts)
     cols = []
     for j, k in enumerate(kinds):
         if k == "UNTYPED":
@@ -482,15 +516,91 @@ def profile_of(frame, entry=None):
     return frame.profile
 
 
-def impl_profiles(kinds, rows, cells=None, lazy=False, arrow=None, entry=None):
+def impl_profiles(kinds, rows, cells=None, lazy=False, arrow=None, entry=None, schema=None):
     """Profile a frame through a public entry point. Returns (table profile | None, list of column dicts)."""
     with warnings.catch_warnings():
         warnings.simplefilter("ignore")
         try:
-            tp = profile_of(_frame(kinds, rows, cells, lazy, arrow), entry)
+            tp = profile_of(_frame(kinds, rows, cells, lazy, arrow, schema), entry)
         except Exception as e:
             return None, [{"raised": "%s: %s" % (type(e).__name__, str(e)[:120])} for _ in kinds]
         return tp, [_column_dict(tp.column("c%d" % j)) for j in range(len(kinds))]
+
+
+def entry_names(tp):
+    """The names of the entries of a table profile, in order, as its public listing (`to_dicts`) shows them."""
+    return [str(d.get("name")) for d in tp.to_dicts()]
+
+
+def entries_clause(tp, ncols, label=""):
+    """A table profile lists every column exactly once (a frame / sum that holds at least one row)."""
+    try:
+        names = entry_names(tp)
+    except Exception as e:
+        return ("entries", "%slisting the table profile raised %s: %s" % (label, type(e).__name__, str(e)[:100]), None)
+    want = ["c%d" % j for j in range(ncols)]
+    if names != want:
+        j = next((i for i, (a, b) in enumerate(zip(names, want)) if a != b), min(len(names), len(want)))
+        return ("entries", "%sthe table profile lists %d entries %r for the %d column(s) %r" % (label, len(names), names[:8], ncols, want),
+                min(j, ncols - 1))
+    return None
+
+
+def snapshot(tp, ncols):
+    """Every observable field of every column of a table profile (deep, by value): what must not change when the
+    profile is used as an operand of `+` or asked for an estimate."""
+    out = {"names": entry_names(tp), "cols": []}
+    for j in range(ncols):
+        p = tp.column("c%d" % j)
+        d = _column_dict(p)
+        if p is not None:
+            d["name"], d["type"] = str(p.name), str(p.type)
+            d["hist_raw"] = repr([tuple(b) for b in p.histogram])
+            d["mfv_raw"] = repr((list(p.most_frequent_values), list(p.most_frequent_counts)))
+        out["cols"].append(d)
+    return out
+
+
+def snapshot_diff(before, after):
+    """(column, field, before, after) of the first difference between two snapshots, or None."""
+    if before["names"] != after["names"]:
+        return (None, "entries", before["names"], after["names"])
+    for j, (a, b) in enumerate(zip(before["cols"], after["cols"])):
+        for f in a:
+            if a.get(f) != b.get(f):
+                return (j, f, a.get(f), b.get(f))
+        for f in b:
+            if f not in a:
+                return (j, f, None, b.get(f))
+    return None
+
+
+def hist_mass(d):
+    return sum(c for _, c in d["hist"])
+
+
+def ask_estimates(tp, ncols):
+    """Call every estimate_* helper of every column profile (the answers are outside the property; the profile must
+    not change by being asked).  Returns how many calls answered."""
+    answered = 0
+    for j in range(ncols):
+        p = tp.column("c%d" % j)
+        if p is None:
+            continue
+        points = [x for x in (p.minimum, p.maximum) if isinstance(x, int)]
+        if len(points) == 2:
+            points.append((points[0] + points[1]) // 2)
+        points = points or [0]
+        for call in (lambda: p.estimate_cardinality(),) + tuple(
+                (lambda f=f, x=x: getattr(p, f)(x)) for f in ("estimate_values_at", "estimate_values_below", "estimate_values_above") for x in points):
+            try:
+                with warnings.catch_warnings():
+                    warnings.simplefilter("ignore")
+                    call()
+                answered += 1
+            except Exception:
+                pass
+    return answered
 
 
 def impl_column(kind, vals):
@@ -897,15 +1007,17 @@ def non_finite(kind, vals):
     return kind == "DOUBLE" and any(isinstance(v, float) and (v != v or v in (float("inf"), float("-inf"))) for v in vals)
 
 
-def _take(frame, kinds):
-    """The profile of a frame object as it is now -> list of column dicts."""
+def _take(frame, kinds, with_table=False):
+    """The profile of a frame object as it is now -> list of column dicts (and the table profile)."""
     with warnings.catch_warnings():
         warnings.simplefilter("ignore")
         try:
             tp = frame.profile
         except Exception as e:
-            return [{"raised": "%s: %s" % (type(e).__name__, str(e)[:120])} for _ in kinds]
-        return [_column_dict(tp.column("c%d" % j)) for j in range(len(kinds))]
+            cols = [{"raised": "%s: %s" % (type(e).__name__, str(e)[:120])} for _ in kinds]
+            return (cols, None) if with_table else cols
+        cols = [_column_dict(tp.column("c%d" % j)) for j in range(len(kinds))]
+        return (cols, tp) if with_table else cols
 
 
 def check_sequence(case):
@@ -914,12 +1026,12 @@ def check_sequence(case):
     kinds = case["kinds"]
     res = {"cols": None, "adds": [], "failure": None, "views": []}
     lazy = bool(case.get("lazy"))
-    df = _frame(kinds, case["rows"], None, lazy)
-    other = _frame(kinds, case["other"], None, False) if case.get("other") else None
+    df = _frame(kinds, case["rows"], None, lazy, None, case.get("schema"))
+    other = _frame(kinds, case["other"], None, False, None, case.get("schema")) if case.get("other") else None
     cur = [list(r) for r in case["rows"]]
 
     def judge(frame, rows, label):
-        cols = _take(frame, kinds)
+        cols, tp = _take(frame, kinds, True)
         res["views"].append((label, [list(r) for r in rows], cols))
         if res["cols"] is None:
             res["cols"] = cols
@@ -927,6 +1039,11 @@ def check_sequence(case):
             f = oracle_column(k, [r[j] for r in rows], cols[j])
             if f is not None:
                 res["failure"] = (f[0], "%scolumn %d (%s): %s" % (label, j, k, f[1]), j)
+                return False
+        if tp is not None and rows:
+            f = entries_clause(tp, len(kinds), label)
+            if f is not None:
+                res["failure"] = f
                 return False
         return True
 
@@ -959,51 +1076,181 @@ def check_case(case):
     lazy = bool(case.get("lazy"))
     arrow = case.get("arrow")
     entry = case.get("entry")
-    tp, cols = impl_profiles(kinds, rows, cells, lazy, arrow, entry)
-    res = {"cols": cols, "adds": [], "failure": None, "views": [("", rows, cols)]}
+    schema = case.get("schema")
+    nc = len(kinds)
+    tp, cols = impl_profiles(kinds, rows, cells, lazy, arrow, entry, schema)
+    res = {"cols": cols, "adds": [], "failure": None, "views": [("", rows, cols)], "checks": {}}
+    big = len(rows) > consts()["batch"]
     for j, k in enumerate(kinds):
         vals = [r[j] for r in rows]
         f = oracle_column(k, vals, cols[j])
+        # above the batch size a failure of one frequency clause (open finding K06) must not hide the others:
+        # judge the remaining clauses of this column, the other columns and the list of entries too
+        skip = []
+        while f is not None:
+            fail = (f[0], "column %d (%s): %s" % (j, k, f[1]), j)
+            if res["failure"] is None:
+                res["failure"] = fail
+            else:
+                res.setdefault("more", []).append(fail)
+            if not (big and f[0] in ("mfv", "cardinality", "order", "transitions")):
+                return res
+            skip.append(f[0])
+            f = oracle_column(k, vals, cols[j], skip=tuple(skip))
+    if res["failure"] is not None:
+        f = entries_clause(tp, nc) if tp is not None else None
         if f is not None:
-            res["failure"] = (f[0], "column %d (%s): %s" % (j, k, f[1]), j)
-            # above the batch size a failure of one frequency clause (open finding K06) must not hide the
-            # others: judge the remaining clauses of this column too
-            skip = []
-            while len(rows) > consts()["batch"] and f is not None and f[0] in ("mfv", "cardinality", "order", "transitions"):
-                skip.append(f[0])
-                f = oracle_column(k, vals, cols[j], skip=tuple(skip))
-                if f is not None:
-                    res.setdefault("more", []).append((f[0], "column %d (%s): %s" % (j, k, f[1]), j))
+            res.setdefault("more", []).append(f)
+        return res
+    if tp is not None:
+        f = entries_clause(tp, nc)
+        if f is not None:
+            res["failure"] = f
             return res
-    for cut in case.get("cuts", []):
+        # asking a profile for its estimates must not change it
+        before = snapshot(tp, nc)
+        res["checks"]["estimates-asked"] = ask_estimates(tp, nc)
+        ch = snapshot_diff(before, snapshot(tp, nc))
+        if ch is not None:
+            res["failure"] = ("profile-changed", "column %s: asking the profile for its estimates (estimate_cardinality / estimate_values_at / "
+                              "_below / _above) changed its %s from %r to %r" % (ch[0], ch[1], _short(ch[2]), _short(ch[3])), ch[0])
+            return res
+
+    def side(lo, hi):
+        return profile_of(_frame(kinds, rows[lo:hi], cells, lazy, arrow, schema), entry)
+
+    def batch_clause(tp_, lo, hi, label):
+        """The profile of rows[lo:hi] judged as the profile of that batch (every clause, histogram included)."""
+        for j, k in enumerate(kinds):
+            d = _column_dict(tp_.column("c%d" % j))
+            if d.get("absent") and hi == lo:
+                continue
+            f = oracle_column(k, [r[j] for r in rows[lo:hi]], d)
+            if f is not None:
+                return j, f
+        return None
+
+    def operands_unchanged(ops, when):
+        """ops: [(label, table profile, snapshot before, lo, hi)]. -> failure or None"""
+        for label, tp_, before, lo, hi in ops:
+            ch = snapshot_diff(before, snapshot(tp_, nc))
+            if ch is None:
+                continue
+            text = "%s changed its operand %s: %s of column %s was %s, is now %s" % (when, label, ch[1], ch[0], _short(ch[2]), _short(ch[3]))
+            bc = batch_clause(tp_, lo, hi, label)
+            if bc is not None:
+                text += "; %s is no longer the profile of its batch (column %d: %s)" % (label, bc[0], bc[1][1])
+            return ("operand-changed", text, ch[0])
+        return None
+
+    def whole_clause(sum_cols, label):
+        """count/missing/min/max of a sum = those of the whole column; its histogram holds every non-null value once."""
+        for j, k in enumerate(kinds):
+            d = sum_cols[j]
+            if d.get("absent") or core_of(d) != core_of(cols[j]):
+                got = None if d.get("absent") else core_of(d)
+                return ("additive", "column %d (%s): %s has count/missing/min/max %r, the profile of the whole column has %r"
+                        % (j, k, label, got, core_of(cols[j])), j)
+        for j, k in enumerate(kinds):
+            d = sum_cols[j]
+            nn = sum(1 for r in rows if r[j] is not None)
+            if k in NUMERIC + TEMPORAL and not non_finite(k, [r[j] for r in rows if r[j] is not None]) and hist_mass(d) != nn:
+                return ("sum-histogram", "column %d (%s): the histogram counts of %s sum to %r for %d non-null values"
+                        % (j, k, label, hist_mass(d), nn), j)
+        return None
+
+    sides = {}
+    cuts = list(case.get("cuts", []))
+    for cut in cuts:
+        la, lb = "profile(rows[:%d])" % cut, "profile(rows[%d:])" % cut
         with warnings.catch_warnings():
             warnings.simplefilter("ignore")
             try:
-                pa = profile_of(_frame(kinds, rows[:cut], cells, lazy, arrow), entry)
-                pb = profile_of(_frame(kinds, rows[cut:], cells, lazy, arrow), entry)
+                pa, pb = side(0, cut), side(cut, len(rows))
+                sides[cut] = (pa, pb)
+                sa, sb = snapshot(pa, nc), snapshot(pb, nc)
+                ops = [(la, pa, sa, 0, cut), (lb, pb, sb, cut, len(rows))]
                 ps = pa + pb
-                sums = [_column_dict(ps.column("c%d" % j)) for j in range(len(kinds))]
-                parts = [[_column_dict(pa.column("c%d" % j)), _column_dict(pb.column("c%d" % j))] for j in range(len(kinds))]
-                # the operands are used a second time: adding must not have changed them
+                sums = [_column_dict(ps.column("c%d" % j)) for j in range(nc)]
+                parts = [[_column_dict(pa.column("c%d" % j)), _column_dict(pb.column("c%d" % j))] for j in range(nc)]
+                res["adds"].append((cut, parts, sums))
+                f = whole_clause(sums, "%s + %s" % (la, lb))
+                if f is None and rows:
+                    f = entries_clause(ps, nc, "%s + %s: " % (la, lb))
+                f = f or operands_unchanged(ops, "adding %s + %s" % (la, lb))
+                if f is not None:
+                    res["failure"] = f
+                    return res
+                first = snapshot(ps, nc)
+                # the operands are used a second time: the same sum, field by field (histogram included)
                 again = pa + pb
-                sums2 = [_column_dict(again.column("c%d" % j)) for j in range(len(kinds))]
+                ch = snapshot_diff(first, snapshot(again, nc))
+                if ch is not None:
+                    sums2 = [_column_dict(again.column("c%d" % j)) for j in range(nc)]
+                    f = whole_clause(sums2, "the same two profiles of rows[:%d] and rows[%d:] added a second time:" % (cut, cut))
+                    res["failure"] = f or ("sum-unrepeatable", "the same two profiles of rows[:%d] and rows[%d:] added a second time give another "
+                                           "sum: %s of column %s was %s, is now %s" % (cut, cut, ch[1], ch[0], _short(ch[2]), _short(ch[3])), ch[0])
+                    return res
+                # the same sum column by column (ColumnProfile.__add__ called directly), where both sides hold the column
+                for j in range(nc):
+                    ca, cb = pa.column("c%d" % j), pb.column("c%d" % j)
+                    if ca is None or cb is None:
+                        continue
+                    cs = _column_dict(ca + cb)
+                    if {f_: v for f_, v in cs.items()} != {f_: v for f_, v in sums[j].items()}:
+                        fld = next(f_ for f_ in cs if cs[f_] != sums[j].get(f_))
+                        res["failure"] = ("additive", "column %d (%s): the column profiles of rows[:%d] and rows[%d:] added directly differ from the "
+                                          "column of the table sum in %s: %s vs %s" % (j, kinds[j], cut, cut, fld, _short(cs[fld]), _short(sums[j].get(fld))), j)
+                        return res
+                # an operand that has been asked for its estimates adds up to the same sum
+                res["checks"]["estimates-asked"] = res["checks"].get("estimates-asked", 0) + ask_estimates(pa, nc) + ask_estimates(pb, nc)
+                third = pa + pb
+                f = operands_unchanged(ops, "asking for estimates and adding %s + %s again" % (la, lb))
+                ch = snapshot_diff(first, snapshot(third, nc))
+                if f is None and ch is not None:
+                    f = ("sum-unrepeatable", "%s + %s after both were asked for their estimates give another sum: %s of column %s was %s, is now %s"
+                         % (la, lb, ch[1], ch[0], _short(ch[2]), _short(ch[3])), ch[0])
+                if f is not None:
+                    res["failure"] = f
+                    return res
+                res["checks"]["operand-snapshots"] = res["checks"].get("operand-snapshots", 0) + 1
             except Exception as e:
                 res["failure"] = ("add-raised", "adding the profiles of rows[:%d] and rows[%d:] raised %s: %s"
                                   % (cut, cut, type(e).__name__, str(e)[:100]), None)
                 return res
-        res["adds"].append((cut, parts, sums))
-        for j, k in enumerate(kinds):
-            if sums[j].get("absent") or core_of(sums[j]) != core_of(cols[j]):
-                got = None if sums[j].get("absent") else core_of(sums[j])
-                res["failure"] = ("additive", "column %d (%s): profile(rows[:%d]) + profile(rows[%d:]) has count/missing/min/max %r, "
-                                  "the profile of the whole column has %r" % (j, k, cut, cut, got, core_of(cols[j])), j)
-                return res
-            if sums2[j].get("absent") or core_of(sums2[j]) != core_of(cols[j]):
-                got = None if sums2[j].get("absent") else core_of(sums2[j])
-                res["failure"] = ("additive", "column %d (%s): the same two profiles of rows[:%d] and rows[%d:] added a second time give "
-                                  "count/missing/min/max %r, the profile of the whole column has %r" % (j, k, cut, cut, got, core_of(cols[j])), j)
+    # three batches: (a + b) + c and a + (b + c), the outer operands being the ones already used above
+    inner = sorted(set(cuts))
+    if len(inner) >= 2 and inner[0] < inner[1]:
+        c1, c2 = inner[0], inner[1]
+        with warnings.catch_warnings():
+            warnings.simplefilter("ignore")
+            try:
+                pa, pc = sides[c1][0], sides[c2][1]
+                pm = side(c1, c2)
+                la, lm, lc = "profile(rows[:%d])" % c1, "profile(rows[%d:%d])" % (c1, c2), "profile(rows[%d:])" % c2
+                ops = [(la, pa, snapshot(pa, nc), 0, c1), (lm, pm, snapshot(pm, nc), c1, c2), (lc, pc, snapshot(pc, nc), c2, len(rows))]
+                left = (pa + pm) + pc
+                right = pa + (pm + pc)
+                f = (whole_clause([_column_dict(left.column("c%d" % j)) for j in range(nc)], "(%s + %s) + %s" % (la, lm, lc))
+                     or whole_clause([_column_dict(right.column("c%d" % j)) for j in range(nc)], "%s + (%s + %s)" % (la, lm, lc))
+                     or operands_unchanged(ops, "adding three batch profiles in both groupings"))
+                if f is not None:
+                    res["failure"] = f
+                    return res
+                res["checks"]["three-batches"] = 1
+            except Exception as e:
+                res["failure"] = ("add-raised", "adding the profiles of rows[:%d], rows[%d:%d] and rows[%d:] raised %s: %s"
+                                  % (c1, c1, c2, c2, type(e).__name__, str(e)[:100]), None)
                 return res
     return res
+
+
+def _short(x):
+    t = x if isinstance(x, str) else repr(x)
+    return t if len(t) <= 160 else t[:157] + "..."
+
+
+SUM_CLAUSES = ("additive", "add-raised", "operand-changed", "sum-unrepeatable", "sum-histogram")
 
 
 def shrink_case(case, what):
@@ -1050,7 +1297,7 @@ def shrink_case(case, what):
             if still(c2):
                 c = c2
                 break
-    if what == "additive" and "gen" not in c and "appends" not in c and c.get("cuts") and 2 < len(c["rows"]) <= 60:
+    if what in SUM_CLAUSES and what != "add-raised" and "gen" not in c and "appends" not in c and c.get("cuts") and 2 < len(c["rows"]) <= 60:
         # a sum that differs from the whole is usually about one row on either side of the cut
         found = None
         for cut in c["cuts"]:
@@ -1066,7 +1313,7 @@ def shrink_case(case, what):
                 break
         if found:
             c = found
-    if c.get("cuts") and what != "additive" and what != "add-raised":
+    if c.get("cuts") and what not in SUM_CLAUSES:
         c2 = {k: v for k, v in c.items() if k != "cuts"}
         if still(c2):
             c = c2
@@ -1076,7 +1323,7 @@ def shrink_case(case, what):
             if still(c2):
                 c = c2
                 break
-    for drop in ("lazy", "cells", "other", "arrow", "entry"):
+    for drop in ("lazy", "cells", "other", "arrow", "entry", "schema"):
         if drop in c:
             c2 = {k: v for k, v in c.items() if k != drop}
             if still(c2):
@@ -1122,6 +1369,17 @@ def evaluate(ctx, cases):
             ctx.hit("cuts:one-batch-without-rows")
         ctx.hit("frame:lazy" if c.get("lazy") else "frame:eager")
         ctx.hit("entry:" + (c.get("entry") or "DataFrame.profile"))
+        bsz = consts()["batch"]
+        skind = c.get("schema") or ("arrow" if c.get("arrow") else "RelationSchema")
+        ctx.hit("schema:" + skind)
+        if n >= bsz - 1:
+            ctx.hit("morsels:%s:%s" % (skind, "batch-1" if n == bsz - 1 else "batch" if n == bsz else "batch+1" if n == bsz + 1
+                                       else "2*batch+3" if n == 2 * bsz + 3 else "%d..%d batches" % (n // bsz, n // bsz + 1)))
+        for key in ("operand-snapshots", "three-batches"):
+            if (res.get("checks") or {}).get(key):
+                ctx.hit("sum:" + key)
+        if (res.get("checks") or {}).get("estimates-asked"):
+            ctx.hit("estimates-asked-profile-unchanged")
         if "appends" in c:
             ctx.hit("sequence:uses-of-one-frame:%d" % min(len(c["appends"]) + 1, 5))
             ctx.hit("sequence:second-frame-between" if c.get("other") else "sequence:uninterrupted")
@@ -1130,7 +1388,7 @@ def evaluate(ctx, cases):
         for j, (k, f) in enumerate(zip(kinds, cell_forms(c))):
             if k in TEMPORAL:
                 if c.get("arrow"):
-                    ctx.hit("cell:%s:arrow:%s" % (k, c["arrow"][j]))
+                    pass
                 else:
                     ctx.hit("cell:%s:%s" % (k, f or ("naive" if k == "TIMESTAMP" else "date")))
                 secs = [exact(k, r[j]) for r in rows if r[j] is not None]
@@ -1148,6 +1406,8 @@ def evaluate(ctx, cases):
             vals = [r[j] for r in rows]
             nn = [v for v in vals if v is not None]
             ctx.hit("kind:" + k)
+            if c.get("arrow"):
+                ctx.hit("cell:%s:arrow:%s" % (k, c["arrow"][j]))
             ctx.hit("nulls:" + ("all" if not nn else "none" if len(nn) == n else "some"))
             if k == "DECIMAL" and nn and len(nn) < n:
                 ctx.hit("decimal:with-nulls")
@@ -1334,8 +1594,14 @@ def evaluate(ctx, cases):
                 if not any(k.get("status") == "open" and hcore.match_known(ctx.prop_id, k, c, f0) for k in ctx.known):
                     ctx.hit("violation-dup:" + what)
                     continue
-            c_min = c if ctx.replaying else shrink_case(c, what)
-            r2 = check_case(c_min)
+            keep = ctx.replaying
+            if not keep and len(expand(c)) > consts()["batch"]:
+                # a frame above the batch size whose failure an open finding explains is reported as it stands:
+                # every shrinking probe would profile 25000+ rows again
+                f0 = {"clause": fail[1], "detail": {"what": what, "col": fail[2], "got": got}}
+                keep = any(k.get("status") == "open" and hcore.match_known(ctx.prop_id, k, c, f0) for k in ctx.known)
+            c_min = c if keep else shrink_case(c, what)
+            r2 = res if c_min is c else check_case(c_min)
             if r2["failure"] is None:
                 r2 = res
                 c_min = c
@@ -1489,10 +1755,14 @@ def random_case(ctx, big=False):
     n = rng.randint(1, 8) if r < 0.35 else rng.randint(9, 40) if r < 0.7 else rng.randint(41, 90) if r < 0.93 else rng.randint(91, 300)
     ncols = 1 if rng.random() < 0.6 else rng.randint(2, 3)
     kinds = [rng.choice(KINDS) for _ in range(ncols)]
+    if rng.random() < 0.07:
+        kinds = ["UNTYPED"] * ncols
     cols = [random_column(rng, k, n) for k in kinds]
     rows = [[col[i] for col in cols] for i in range(n)]
     c = {"kinds": kinds, "rows": rows}
-    if all(k in TEMPORAL for k in kinds) and rng.random() < 0.3:
+    if all(k == "UNTYPED" for k in kinds) and rng.random() < 0.6:
+        c["schema"] = rng.choice(SCHEMAS)  # the schema is a plain list of names
+    elif all(k in ARROW for k in kinds) and rng.random() < (0.3 if all(k in TEMPORAL for k in kinds) else 0.2):
         # the frame arrives through Arrow: the widest type that holds every cell of the column
         arrow = []
         for j, k in enumerate(kinds):
@@ -1512,7 +1782,7 @@ def random_case(ctx, big=False):
             c["cuts"] = list(range(1, n))
         else:
             c["cuts"] = sorted(set(rng.randint(1, n - 1) for _ in range(rng.randint(1, 3))))
-    if "arrow" not in c and rng.random() < 0.15:
+    if "arrow" not in c and c.get("schema") != "dicts" and rng.random() < 0.15:
         c["cuts"] = sorted(set(c.get("cuts", []) + [rng.choice([0, n])]))  # one batch without rows
     return c
 
@@ -1539,6 +1809,8 @@ def random_sequence(ctx):
         c["other"] = [[col[i] for col in ocols] for i in range(m)]
     if rng.random() < 0.2:
         c["lazy"] = True
+    if all(k == "UNTYPED" for k in kinds) and rng.random() < 0.6:
+        c["schema"] = rng.choice(SCHEMAS)
     return c
 
 
@@ -1629,9 +1901,78 @@ def big_case(ctx, i):
     c = {"kinds": kinds, "gen": {"n": n, "pattern": pattern}}
     if i % 2 == 1:
         c["lazy"] = True
+    if all(k == "UNTYPED" for k in kinds):
+        c["schema"] = rng.choice(SCHEMAS)
+    elif all(k in ARROW for k in kinds) and rng.random() < 0.5:
+        fits = [[t for t in ARROW[k] if all(arrow_holds(t, r[j]) for r in pattern)] for j, k in enumerate(kinds)]
+        if all(fits):
+            c["arrow"] = [rng.choice(f) for f in fits]
+            c.pop("lazy", None)
     if i % 3 == 0:
         c["cuts"] = [rng.choice([1, b, n - 1])]
     return c
+
+
+def reader_batch():
+    """The number of rows DataFrame.from_arrow reads at a time (BATCH_SIZE in orso/converters.py), read from the source."""
+    import ast
+
+    try:
+        tree = ast.parse(open(os.path.join(hcore.REPO, "orso", "converters.py")).read())
+        for n in ast.walk(tree):
+            if isinstance(n, ast.AnnAssign) and isinstance(n.target, ast.Name) and n.target.id == "BATCH_SIZE" and isinstance(n.value, ast.Constant):
+                return int(n.value.value)
+            if isinstance(n, ast.Assign) and any(isinstance(t, ast.Name) and t.id == "BATCH_SIZE" for t in n.targets) and isinstance(n.value, ast.Constant):
+                return int(n.value.value)
+    except Exception:
+        pass
+    return 10000
+
+
+def morsel_cases(ctx):
+    """Frames at and above the morsel size of TableProfile.from_dataframe (the literal of `to_batches(…)`, extracted from the
+    source), of every way a frame is bound to its schema: a plain list of names, built from dictionaries, a RelationSchema
+    (typed and untyped columns), and arrow-backed.  Few columns, simple values; the pattern length is coprime to the
+    morsel size, so every morsel has its own nulls."""
+    b = consts()["batch"]
+    sizes = [b - 1, b, b + 1, 2 * b + 3]
+    thorough = ctx.scale(0, 1) == 1
+    out = []
+    upat = [[0, "a"], [None, "b"], [2, None], [0, "a"], [1.5, None], [True, "c"], [None, None]]
+    for sch in SCHEMAS:
+        for n in (sizes if thorough or sch == "names" else [b + 1, 2 * b + 3]):
+            out.append({"kinds": ["UNTYPED", "UNTYPED"], "schema": sch, "gen": {"n": n, "pattern": upat}})
+    out.append({"kinds": ["UNTYPED"], "schema": "names", "lazy": True, "gen": {"n": b + 1, "pattern": [[None], [1], ["x"]]}})
+    out.append({"kinds": ["UNTYPED"], "schema": "dicts", "entry": "from_dataframe", "gen": {"n": b + 2, "nulls_first": 1, "pattern": [[[1]], [None], ["x"]]}})
+    # a frame whose first morsel is all null in a column of a names-only schema; and one cut at the morsel boundary
+    out.append({"kinds": ["UNTYPED", "UNTYPED"], "schema": "names", "gen": {"n": b + 3, "nulls_first": b, "pattern": [[1, None], [None, "x"]]}, "cuts": [b]})
+    rpat = [[3, 0, "x"], [None, "a", "y"], [-2, None, None], [3, 1.5, "x"], [0, 0, ""], [7, None, "x"], [None, True, None]]
+    for n in (sizes if thorough else [b + 1, 2 * b + 3]):
+        out.append({"kinds": ["INTEGER", "UNTYPED", "VARCHAR"], "gen": {"n": n, "pattern": rpat}})
+    apat = [[3, "x", 1.5], [None, "y", None], [-2, None, 0.0], [3, "x", -0.5], [0, "", 2.25], [7, "x", None], [None, None, 1.5]]
+    rb = reader_batch()
+    for n in (sizes + [rb - 1, rb, rb + 1] if thorough else [b + 1, 2 * b + 3, rb + 1]):
+        out.append({"kinds": ["INTEGER", "VARCHAR", "DOUBLE"], "arrow": ["int64", "string", "double"], "gen": {"n": n, "pattern": apat}})
+    out.append({"kinds": ["DATE", "TIMESTAMP", "BOOLEAN"], "arrow": ["date32", "timestamp[us]", "bool"],
+                "gen": {"n": b + 1, "pattern": [[0, 5, True], [None, None, None], [DATE_MAX, [TS_MAX, 999999], False]]}, "cuts": [b]})
+    return out
+
+
+def schema_edge_cases():
+    """Small frames of every way a frame is bound to its schema, cut everywhere; the new Arrow column types."""
+    out = []
+    for sch in SCHEMAS:
+        lo = 1 if sch == "dicts" else 0
+        out.append({"kinds": ["UNTYPED"], "schema": sch, "rows": [[0], [None], ["a"]], "cuts": list(range(lo, 4 - lo))})
+        out.append({"kinds": ["UNTYPED", "UNTYPED"], "schema": sch, "rows": [[None, None], [1.5, None], [None, [1]], [True, "a"]], "cuts": [1, 2, 3]})
+        out.append({"kinds": ["UNTYPED"], "schema": sch, "rows": [[None]]})
+        out.append({"kinds": ["UNTYPED", "UNTYPED"], "schema": sch, "rows": [[1, "a"]], "appends": [[[None, "b"]], [], [[2, None], [None, None]]]})
+        out.append({"kinds": ["UNTYPED"], "schema": sch, "lazy": True, "rows": [["a"], [None]], "appends": [[[None]]], "other": [[1], [2], [None]]})
+    out.append({"kinds": ["INTEGER", "VARCHAR", "DOUBLE", "BOOLEAN"], "arrow": ["int64", "string", "double", "bool"],
+                "rows": [[0, "ab", -0.5, True], [None, None, None, None], [-3, "b", 0.0, False], [5, "", -1.75, True]], "cuts": [1, 2, 3]})
+    out.append({"kinds": ["INTEGER", "VARCHAR"], "arrow": ["int32", "large_string"], "rows": [[None, None], [0, "日本"], [-7, "x" * 64 + "a"], [0, "x" * 64 + "b"]], "cuts": [1, 3]})
+    out.append({"kinds": ["INTEGER"], "arrow": ["int64"], "rows": [[5], [3], [0]], "cuts": [1, 2]})
+    return out
 
 
 def edge_cases():
@@ -1772,7 +2113,14 @@ def run(ctx):
     evaluate(ctx, temporal_range_cases())
     lap("temporal-range")
     evaluate(ctx, sequence_edge_cases())
+    evaluate(ctx, schema_edge_cases())
     lap("sequence-edge")
+    mc = morsel_cases(ctx)
+    evaluate(ctx, mc)
+    lap("morsels")
+    ctx.note("morsel_frames", "%d frames at and above the morsel size %d (sizes %r) over list-of-names, dictionary-built, RelationSchema "
+             "and arrow-backed frames; arrow reader batch %d" % (len(mc), consts()["batch"], [consts()["batch"] - 1, consts()["batch"],
+                                                                 consts()["batch"] + 1, 2 * consts()["batch"] + 3], reader_batch()))
     cc = collision_cases()
     evaluate(ctx, cc)
     lap("collisions")
